@@ -3,7 +3,7 @@ import ast
 
 from pyvc.engine import load_module_ast, Unsupported
 from pyvc.prop import Property, Bounded, Structural
-from . import auth as A
+from . import auth as A, runstate as RS
 from harness.e2e_auth import bounded_auth
 
 
@@ -45,7 +45,7 @@ def session_only_for_an_existing_user():
 
 PROPERTY = Property(
     'C09', 'Authentication and authorization are sound',
-    contracts=A.CONTRACTS, registry=A.REG,
+    contracts=A.CONTRACTS + RS.CONTRACTS_AUTH, registry=A.REG,
     structural=[Structural('session_only_for_an_existing_user', session_only_for_an_existing_user)],
     bounded=[Bounded('credential attempts and attempt sequences on the real IMAP and ManageSieve servers (dict backend, real hashing)',
                      '71 attempts: LOGIN with 23 (user, password) pairs (wrong, empty, prefix, trailing space, other case, other user\'s '
